@@ -133,10 +133,11 @@ Definition container_depth (cfg : rcfg) (es : list event) : option N :=
 (* ------------------------------------------------------------------------- *)
 (* Document trees (C10 c)                                                     *)
 (* ------------------------------------------------------------------------- *)
-(* The fragment WITHOUT markers, local references, chunked arrays, media and custom types:
-   scalars, arrays delivered whole, lists, maps with scalar or string keys, nodes, edges with three
-   components, records of declared arity; padding and comments wherever the validator allows them;
-   record types before the single top-level value. *)
+(* The fragment WITHOUT chunked arrays, media and custom types, and without markers or references in
+   map-key position: scalars, arrays delivered whole, lists, maps with scalar or string keys, nodes, edges
+   with three components, records of declared arity, markers on any of these (nested markers included) and
+   local references (backward and forward) in value position; padding and comments wherever the validator
+   allows them; record types before the single top-level value. *)
 Inductive trivia := TPad | TComment (multi : bool) (text : bytes).
 Definition trivia_event (t : trivia) : event :=
   match t with TPad => EPadding | TComment m x => EComment m x end.
@@ -148,7 +149,9 @@ Inductive val :=
 | VMap (entries : list (list trivia * event * val)) (close : list trivia)   (* trivia, key, value *)
 | VNode (v : val) (items : list val) (close : list trivia)
 | VEdge (src desc dst : val) (close : list trivia)
-| VRecord (id : bytes) (fields : list val) (close : list trivia).
+| VRecord (id : bytes) (fields : list val) (close : list trivia)
+| VMarked (id : bytes) (pads : nat) (v : val)        (* a marker, padding events, the marked value *)
+| VRef (id : bytes).                                 (* a local reference *)
 
 Fixpoint flatten (v : val) : list event :=
   match v with
@@ -161,6 +164,8 @@ Fixpoint flatten (v : val) : list event :=
   | VNode v items close => ENode :: flatten v ++ flat_map flatten items ++ map trivia_event close ++ [EEnd]
   | VEdge s d t close => EEdge :: flatten s ++ flatten d ++ flatten t ++ map trivia_event close ++ [EEnd]
   | VRecord id fields close => ERecord id :: flat_map flatten fields ++ map trivia_event close ++ [EEnd]
+  | VMarked id pads v => EMarker id :: repeat EPadding pads ++ flatten v
+  | VRef id => [ERefLocal id]
   end.
 
 (* nesting depth *)
@@ -174,6 +179,8 @@ Fixpoint height (v : val) : N :=
   | VNode v items _ => 1 + N.max (height v) (list_max (map height items))
   | VEdge s d t _ => 1 + N.max (height s) (N.max (height d) (height t))
   | VRecord _ fields _ => 1 + list_max (map height fields)
+  | VMarked _ _ v => height v
+  | VRef _ => 0
   end.
 
 Definition is_null_event (e : event) : bool :=
@@ -215,6 +222,14 @@ Fixpoint nkeys_distinct (ks : list (option nkey)) : bool :=
   | Some k :: r => negb (existsb (fun x => match x with Some k' => nkey_eqb k k' | None => false end) r) && nkeys_distinct r
   end.
 
+(* what a marker can be put on directly: not trivia, not a marker, not a reference; arrays of a markable type *)
+Definition markable (v : val) : bool :=
+  match v with
+  | VLeaf (EArray t _ _) | VLeaf (EStringArray t _) => assert_array_type t Allow_Markable
+  | VT _ _ | VMarked _ _ _ | VRef _ => false
+  | _ => true
+  end.
+
 (* [wf_val cfg rts nonnull v]: [rts] = the declared record types (name -> arity); [nonnull] = the
    position does not admit null (edge source and destination) *)
 Fixpoint wf_val (cfg : rcfg) (rts : list (bytes * N)) (nonnull : bool) (v : val) : bool :=
@@ -231,7 +246,55 @@ Fixpoint wf_val (cfg : rcfg) (rts : list (bytes * N)) (nonnull : bool) (v : val)
       validate_identifier cfg id &&
       match alookup id rts with Some n => N.of_nat (length fields) =? n | None => false end &&
       forallb (wf_val cfg rts false) fields
+  | VMarked id _ v => validate_identifier cfg id && markable v && wf_val cfg rts nonnull v
+  | VRef id => validate_identifier cfg id
   end.
+
+(* The marker / reference bookkeeping of a value, on sets of identifiers: [fst st] = the ids marked so far,
+   [snd st] = the ids referenced but not yet marked.  A marker is registered when its value is complete; its id
+   must be new.  None = a marker id is used twice. *)
+Definition id_mem (id : bytes) (l : list bytes) : bool := existsb (bytes_eqb id) l.
+Definition id_remove (id : bytes) (l : list bytes) : list bytes := filter (fun x => negb (bytes_eqb x id)) l.
+Fixpoint reg_val (v : val) (st : list bytes * list bytes) : option (list bytes * list bytes) :=
+  let reg_items :=
+    fix go (l : list val) (s : list bytes * list bytes) : option (list bytes * list bytes) :=
+      match l with
+      | [] => Some s
+      | x :: r => match reg_val x s with Some s1 => go r s1 | None => None end
+      end in
+  match v with
+  | VLeaf _ => Some st
+  | VT _ v => reg_val v st
+  | VList items _ => reg_items items st
+  | VMap entries _ =>
+      (fix go (l : list (list trivia * event * val)) (s : list bytes * list bytes) : option (list bytes * list bytes) :=
+         match l with
+         | [] => Some s
+         | en :: r => match reg_val (snd en) s with Some s1 => go r s1 | None => None end
+         end) entries st
+  | VNode v items _ => match reg_val v st with Some s => reg_items items s | None => None end
+  | VEdge s d t _ =>
+      match reg_val s st with
+      | Some s1 => match reg_val d s1 with Some s2 => reg_val t s2 | None => None end
+      | None => None
+      end
+  | VRecord _ fields _ => reg_items fields st
+  | VMarked id _ v =>
+      match reg_val v st with
+      | Some (mk, fw) => if id_mem id mk then None else Some (id :: mk, id_remove id fw)
+      | None => None
+      end
+  | VRef id => let '(mk, fw) := st in if id_mem id mk || id_mem id fw then Some st else Some (mk, id :: fw)
+  end.
+(* the same over a list of values *)
+Fixpoint reg_list (vs : list val) (st : list bytes * list bytes) : option (list bytes * list bytes) :=
+  match vs with
+  | [] => Some st
+  | x :: r => match reg_val x st with Some s1 => reg_list r s1 | None => None end
+  end.
+(* a reference cannot be the top-level value *)
+Fixpoint top_ok (v : val) : bool :=
+  match v with VT _ v => top_ok v | VRef _ => false | _ => true end.
 
 (* documents: record types (and trivia) first, then the one top-level value *)
 Inductive top_item :=
@@ -260,7 +323,9 @@ Fixpoint declare (cfg : rcfg) (rts : list (bytes * N)) (pre : list top_item) : o
   end.
 Definition wf_doc (cfg : rcfg) (d : doc) : bool :=
   match declare cfg [] (d_pre d) with
-  | Some rts => wf_val cfg rts false (d_top d)
+  | Some rts =>
+      wf_val cfg rts false (d_top d) && top_ok (d_top d) &&
+      match reg_val (d_top d) ([], []) with Some (_, []) => true | _ => false end   (* marker ids distinct, every reference resolved *)
   | None => false
   end.
 Definition doc_height (d : doc) : N :=
